@@ -1,8 +1,195 @@
 (** C11 - exp, ln and powers are accurate to less than one unit in the last place. Statements only. *)
-From Coq Require Import Reals.
-From Dashu Require Import Base.Prelude Float.RoundSpec Float.Contract Float.Model Float.ElemEntry Float.ElemEntryProof.
+From Coq Require Import ZArith Reals List.
+From Dashu Require Import Base.Prelude Float.RoundSpec Float.Contract Float.Model Float.ElemEncl Float.ElemEntry
+  Float.ElemEntryProof Float.ElemEnclProof Float.ElemDirected Float.ElemEntryDomain.
+Import ListNotations.
 Open Scope Z_scope.
 
+(** ---- the meaning of the verdicts of the certified checkers (fval B s e = s * B^e, bpw B e = B^e) *)
+Theorem C11_accept_means : forall B p t r fexact,
+  Accepted B p t r fexact <->
+  (r = t \/ exists E, (bpw B E <= Rabs t)%R /\ (Rabs (r - t) < bpw B (E - p + 1))%R) /\ (fexact = true -> r = t).
+Proof. intros. apply iff_refl. Qed.
+Print Assumptions C11_accept_means.
+
+Theorem C11_reject_means : forall B p t r fexact,
+  Rejected B p t r fexact <->
+  ((t = 0%R /\ r <> t) \/ exists E, (Rabs t < bpw B (E + 1))%R /\ (bpw B (E - p + 1) <= Rabs (r - t))%R) \/
+  (fexact = true /\ r <> t).
+Proof. intros. apply iff_refl. Qed.
+Print Assumptions C11_reject_means.
+
+Theorem C11_verdicts_exclusive : forall B, 2 <= B -> forall p t r f, Accepted B p t r f -> Rejected B p t r f -> False.
+Proof. exact accepted_rejected_exclusive. Qed.
+Print Assumptions C11_verdicts_exclusive.
+
+Theorem C11_sound_means : forall B p t r f v,
+  Sound B p t r f v = match v with VAccept => Accepted B p t r f | VReject => Rejected B p t r f | VUndecided => True end.
+Proof. reflexivity. Qed.
+Print Assumptions C11_sound_means.
+
+(** ---- soundness of the checkers, for every working precision / schedule / hint the driver may pass *)
+Theorem C11_check_exp_sound : forall B, 2 <= B -> forall prt pra p s e rs re fexact,
+  Sound B p (exp (fval B s e)) (fval B rs re) fexact (check_exp prt pra B p s e rs re fexact).
+Proof. exact check_exp_sound. Qed.
+Print Assumptions C11_check_exp_sound.
+
+Theorem C11_check_expm1_sound : forall B, 2 <= B -> forall prt pra p s e rs re fexact,
+  Sound B p (exp (fval B s e) - 1) (fval B rs re) fexact (check_expm1 prt pra B p s e rs re fexact).
+Proof. exact check_expm1_sound. Qed.
+Print Assumptions C11_check_expm1_sound.
+
+Theorem C11_check_ln_sound : forall B, 2 <= B -> forall prt pra slack from_result steps p s e rs re fexact,
+  Sound B p (ln (fval B s e)) (fval B rs re) fexact (check_ln prt pra slack from_result steps B p s e rs re fexact).
+Proof. exact check_ln_sound. Qed.
+Print Assumptions C11_check_ln_sound.
+
+Theorem C11_check_ln1p_sound : forall B, 2 <= B -> forall prt pra slack from_result steps p s e rs re fexact,
+  (-1 < fval B s e)%R ->
+  Sound B p (ln (1 + fval B s e)) (fval B rs re) fexact (check_ln1p prt pra slack from_result steps B p s e rs re fexact).
+Proof. exact check_ln1p_sound. Qed.
+Print Assumptions C11_check_ln1p_sound.
+
+Theorem C11_check_powi_sound : forall B, 2 <= B -> forall pra exact_ok p s e n rs re fexact,
+  s <> 0 \/ 0 <= n ->
+  Sound B p (powerRZ (fval B s e) n) (fval B rs re) fexact (check_powi pra exact_ok B p s e n rs re fexact).
+Proof. exact check_powi_sound. Qed.
+Print Assumptions C11_check_powi_sound.
+
+Theorem C11_check_powf_sound : forall B, 2 <= B -> forall prt pra slack steps exact_ok p s e ys ye rs re fexact,
+  0 < s ->
+  Sound B p (Rpower (fval B s e) (fval B ys ye)) (fval B rs re) fexact
+        (check_powf prt pra slack steps exact_ok B p s e ys ye rs re fexact).
+Proof. exact check_powf_sound. Qed.
+Print Assumptions C11_check_powf_sound.
+
+(** ---- the entry logic: unlimited precision is refused, Exact shortcuts are exact, domain panics *)
 Theorem C11_exp_unlimited_panics : forall s mo, exp_entry 0 s mo = EPanic EPUnlimited.
 Proof. exact exp_entry_unlimited. Qed.
 Print Assumptions C11_exp_unlimited_panics.
+
+Theorem C11_exp_exact_shortcut : forall B p s e mo s' e', exp_entry p s mo = EExact s' e' ->
+  fval B s' e' = (if mo then exp (fval B s e) - 1 else exp (fval B s e))%R.
+Proof. exact exp_entry_exact. Qed.
+Print Assumptions C11_exp_exact_shortcut.
+
+Theorem C11_ln_unlimited_panics : forall B s e op, ln_entry B 0 s e op = EPanic EPUnlimited.
+Proof. exact ln_entry_unlimited. Qed.
+Print Assumptions C11_ln_unlimited_panics.
+
+Theorem C11_ln_exact_shortcut : forall B p s e op s' e', ln_entry B p s e op = EExact s' e' ->
+  fval B s' e' = (if op then ln (1 + fval B s e) else ln (fval B s e))%R.
+Proof. exact ln_entry_exact. Qed.
+Print Assumptions C11_ln_exact_shortcut.
+
+Theorem C11_ln_domain_panic : forall B, 2 <= B -> forall p s e op, p <> 0 ->
+  (ln_entry B p s e op = EPanic EPLogDomain <-> (if op then 1 + fval B s e <= 0 else fval B s e <= 0)%R).
+Proof. exact ln_entry_domain. Qed.
+Print Assumptions C11_ln_domain_panic.
+
+Theorem C11_ln_before_fix_refuted :
+  ln_entry_before_fix 5 (-2) 0 false = ECompute /\ ln_entry_before_fix 5 0 0 false = ECompute /\
+  ln_entry_before_fix 5 (-1) 0 true = ECompute /\
+  ln_entry 10 5 (-2) 0 false = EPanic EPLogDomain /\ ln_entry 10 5 0 0 false = EPanic EPLogDomain /\
+  ln_entry 10 5 (-1) 0 true = EPanic EPLogDomain.
+Proof. exact ln_entry_before_fix_refuted. Qed.
+Print Assumptions C11_ln_before_fix_refuted.
+
+Theorem C11_powi_unlimited_panics_iff_negative : forall B m s e n, powi_entry B 0 m s e n = EPanic EPUnlimited <-> n < 0.
+Proof. exact powi_entry_unlimited. Qed.
+Print Assumptions C11_powi_unlimited_panics_iff_negative.
+
+Theorem C11_powi_exact_shortcut : forall B, 2 <= B -> forall p m s e n s' e',
+  powi_entry B p m s e n = EExact s' e' -> fval B s' e' = powerRZ (fval B s e) n.
+Proof. exact powi_entry_exact. Qed.
+Print Assumptions C11_powi_exact_shortcut.
+
+Theorem C11_powi_first_power_is_rounded_operand : forall B p m s e n a,
+  powi_entry B p m s e n = ERound a -> n = 1 /\ a = repr_round B p m s e.
+Proof. exact powi_entry_round. Qed.
+Print Assumptions C11_powi_first_power_is_rounded_operand.
+
+Theorem C11_powf_unlimited_panics : forall B m s e ys ye, powf_entry B 0 m s e ys ye = EPanic EPUnlimited.
+Proof. exact powf_entry_unlimited. Qed.
+Print Assumptions C11_powf_unlimited_panics.
+
+Theorem C11_powf_exact_shortcut : forall B, 2 <= B -> forall p m s e ys ye s' e', 0 < s ->
+  powf_entry B p m s e ys ye = EExact s' e' -> fval B s' e' = Rpower (fval B s e) (fval B ys ye).
+Proof. exact powf_entry_exact_value. Qed.
+Print Assumptions C11_powf_exact_shortcut.
+
+Theorem C11_powf_negative_base_panics : forall B p m s e ys ye,
+  p <> 0 -> ys <> 0 -> is_one ys ye = false -> s < 0 -> powf_entry B p m s e ys ye = EPanic EPNegBase.
+Proof. exact powf_entry_negative_base. Qed.
+Print Assumptions C11_powf_negative_base_panics.
+
+(** ---- open finding directed_faithful: as-is accuracy and refutation of the one-ulp claim *)
+Theorem C11_loose_means : forall B p t r,
+  Loose B p t r <-> exists E, (bpw B E <= Rabs r)%R /\ (Rabs (r - t) < bpw B (E - p + 2))%R.
+Proof. intros. apply iff_refl. Qed.
+Print Assumptions C11_loose_means.
+
+Theorem C11_loose_exp_sound : forall B, 2 <= B -> forall prt pra p s e rs re,
+  loose_exp prt pra B p s e rs re = VAccept -> Loose B p (exp (fval B s e)) (fval B rs re).
+Proof. exact loose_exp_sound. Qed.
+Print Assumptions C11_loose_exp_sound.
+
+Theorem C11_loose_expm1_sound : forall B, 2 <= B -> forall prt pra p s e rs re,
+  loose_expm1 prt pra B p s e rs re = VAccept -> Loose B p (exp (fval B s e) - 1) (fval B rs re).
+Proof. exact loose_expm1_sound. Qed.
+Print Assumptions C11_loose_expm1_sound.
+
+Theorem C11_loose_ln_sound : forall B, 2 <= B -> forall prt pra slack steps p s e rs re,
+  loose_ln prt pra slack steps B p s e rs re = VAccept -> Loose B p (ln (fval B s e)) (fval B rs re).
+Proof. exact loose_ln_sound. Qed.
+Print Assumptions C11_loose_ln_sound.
+
+Theorem C11_loose_ln1p_sound : forall B, 2 <= B -> forall prt pra slack steps p s e rs re, (-1 < fval B s e)%R ->
+  loose_ln1p prt pra slack steps B p s e rs re = VAccept -> Loose B p (ln (1 + fval B s e)) (fval B rs re).
+Proof. exact loose_ln1p_sound. Qed.
+Print Assumptions C11_loose_ln1p_sound.
+
+Theorem C11_loose_powi_sound : forall B, 2 <= B -> forall pra p s e n rs re,
+  loose_powi pra B p s e n rs re = VAccept -> Loose B p (powerRZ (fval B s e) n) (fval B rs re).
+Proof. exact loose_powi_sound. Qed.
+Print Assumptions C11_loose_powi_sound.
+
+Theorem C11_loose_powf_sound : forall B, 2 <= B -> forall prt pra slack steps p s e ys ye rs re,
+  loose_powf prt pra slack steps B p s e ys ye rs re = VAccept ->
+  Loose B p (Rpower (fval B s e) (fval B ys ye)) (fval B rs re).
+Proof. exact loose_powf_sound. Qed.
+Print Assumptions C11_loose_powf_sound.
+
+Theorem C11_directed_refuted :
+  Rejected 10 1 (exp (fval 10 (-87) (-19))) (fval 10 2 0) false /\
+  Loose 10 1 (exp (fval 10 (-87) (-19))) (fval 10 2 0).
+Proof. exact directed_refuted_exp. Qed.
+Print Assumptions C11_directed_refuted.
+
+Theorem C11_directed_refuted_exp_300_bits :
+  Rejected 2 300 (exp (fval 2 (-256) (-1299))) (fval 2 (2 ^ 299 + 1) (-299)) false.
+Proof. exact directed_refuted_exp_300. Qed.
+Print Assumptions C11_directed_refuted_exp_300_bits.
+
+Theorem C11_directed_refuted_ln1p_fitting_operand :
+  Rejected 3 20 (ln (1 + fval 3 1057080249 (-19))) (fval 3 2255402011 (-20)) false /\
+  Loose 3 20 (ln (1 + fval 3 1057080249 (-19))) (fval 3 2255402011 (-20)).
+Proof. exact directed_refuted_ln1p. Qed.
+Print Assumptions C11_directed_refuted_ln1p_fitting_operand.
+
+Theorem C11_directed_refuted_powf_exact_value :
+  Rejected 3 2 (Rpower (fval 3 6 (-2)) (fval 3 2 0)) (fval 3 1 (-1)) false.
+Proof. exact directed_refuted_powf. Qed.
+Print Assumptions C11_directed_refuted_powf_exact_value.
+
+(** non-vacuity: documented examples of exp.rs / log.rs are accepted, a wrong Exact claim is rejected *)
+Example C11_nonvacuous :
+  check_exp 60 200 10 2 (-1234) (-3) 29 (-2) false = VAccept /\
+  check_expm1 60 200 10 2 (-1234) (-4) (-12) (-2) false = VAccept /\
+  check_ln 120 250 70 false [110; 120]%positive 10 2 1234 (-3) 21 (-2) false = VAccept /\
+  check_ln1p 120 250 70 false [110; 120]%positive 10 2 1234 (-4) 12 (-2) false = VAccept /\
+  check_powi 200 true 10 2 (-1234) (-3) 10 82 (-1) false = VAccept /\
+  check_powf 120 250 70 [110; 120]%positive false 10 2 123 (-2) (-456) (-2) 39 (-2) false = VAccept /\
+  check_exp 60 200 10 5 0 0 1 0 true = VAccept /\
+  check_exp 60 200 10 5 3 0 2 1 true = VReject.
+Proof. exact accepted_examples. Qed.
